@@ -149,7 +149,7 @@ CHECKS["C19"] = dict(
 
 CHECKS["C18"] = dict(
     technique="runtime monitoring: reference-model monitor (independent Python implementation of docs/FUNCTIONS.md) over observed function results",
-    text="`let r = f(args)` is evaluated for every function x 19 argument queries (unicode, numeric strings, mixed-type lists, unresolved members, empty "
+    text="`let r = f(args)` is evaluated for every function x 23 argument queries (unicode, numeric strings, mixed-type lists, unresolved members first / in the middle / last / only, empty "
          "selections) x literal/query/variable/nested forms, substring over 13x13 offsets (incl. -1, len, >=65536), join delimiters and empty members, "
          "regex_replace full/partial/no match, 45 boolean/integer/float spellings one by one, random literals, and json round trips on random documents; the result list is read back through a failing "
          "clause on %r and compared, type-strictly and in order, with the reference; unparsable input must raise an error, never a value.",
